@@ -490,6 +490,11 @@ def pipeline_family(kind="composites", scale=1000):
             "nested": {"width": 620, "components": [("aacute", (1, 0, 0, 1, 20, 0))]}},
             "order": [".notdef", "space", "a", "acutecomb", "aacute", "nested"]}
     light, bold = master(400, 500), master(500, 520)
+    if kind == "none":
+        return B.build_designspace(
+            [{"name": "Weight", "tag": "wght", "min": 0, "default": 0, "max": scale}],
+            [{"spec": light, "location": {"Weight": 0}, "name": "light"},
+             {"spec": bold, "location": {"Weight": scale}, "name": "bold"}])
     if kind == "composites":
         light["layers"] = {"mid": {"glyphs": {
             "aacute": {"width": 600, "components": [("a", (1, 0, 0, 1, 0, 0)), ("acutecomb", (1, 0, 0, 1, 280, 16))]},
@@ -529,8 +534,16 @@ def run_pipeline(setup):
     from ufo2ft.filters import getFilterClass
     seq = setup["seq"]
     filters = [getFilterClass(PIPE_FILTERS[k][0])(pre=True, **PIPE_FILTERS[k][1]) for k in seq]
+    if setup.get("reuse"):
+        # call history on user-supplied INTERPOLATABLE filter objects: the same objects first process a
+        # family without any sparse master
+        from ufo2ft.filters import DecomposeComponentsIFilter, PropagateAnchorsIFilter
+        filters = filters + [PropagateAnchorsIFilter(pre=True), DecomposeComponentsIFilter(pre=True)]
+        ufo2ft.compileInterpolatableOTFsFromDS(pipeline_family("none", setup.get("scale", 1000)), filters=filters,
+                                               useProductionNames=False)
     kind, scale = setup.get("kind", "composites"), setup.get("scale", 1000)
-    feat = {"part": "pipeline", "seq": "".join(seq), "sparse_holds": kind, "axis_max": scale}
+    feat = {"part": "pipeline", "seq": "".join(seq), "sparse_holds": kind, "axis_max": scale,
+            "reused_filter_objects": bool(setup.get("reuse"))}
     ctr = {"pipeline_states": 1, "pipeline_sparse_composites_compared": 0}
     r = ufo2ft.compileInterpolatableOTFsFromDS(pipeline_family(kind, scale), filters=filters,
                                                useProductionNames=False)
@@ -611,6 +624,8 @@ class C09(Property):
                         out.append([{"part": "pipeline", "seq": list(seq), "kind": kind, "scale": scale}])
         for kind, scale in (("composites", 1000), ("bases", 1000), ("bases", 1), ("composites", 1)):
             out.append([{"part": "pipeline", "seq": [], "kind": kind, "scale": scale}])
+            for seq in ([], ["T"], ["N"]):
+                out.append([{"part": "pipeline", "seq": seq, "kind": kind, "scale": scale, "reuse": True}])
         return out
 
     def ops(self, h, b):
